@@ -67,11 +67,11 @@ import (
 )
 
 const (
-	xrdName  = "xthings.example.org"
-	nsName   = "default"
-	compName = "comp"
-	revName  = "provider-x-0123456789ab"
-	revImage = "xpkg.upbound.io/acme/provider-x:v1.0.0"
+	xrdName     = "xthings.example.org"
+	nsName      = "default"
+	compName    = "comp"
+	revName     = "provider-x-0123456789ab"
+	revImage    = "xpkg.upbound.io/acme/provider-x:v1.0.0"
 	revOwnedCRD = "widgets.acme.example.org"
 
 	finClaim    = "finalizer.apiextensions.crossplane.io"
@@ -88,16 +88,16 @@ const (
 	xrCtrl    = "composite/" + xrdName
 	claimCtrl = "claim/" + xrdName
 
-	actorClaim   = "claim-controller"
-	actorXR      = "xr-controller"
-	actorDef     = "xrd-definition-controller"
-	actorOff     = "xrd-offered-controller"
-	actorRev     = "revision-controller"
-	actorUsage   = "usage-controller"
-	actorUser    = "user"
-	actorThird   = "third-party"
-	actorAPI     = "apiserver"
-	actorSetup   = "setup"
+	actorClaim    = "claim-controller"
+	actorXR       = "xr-controller"
+	actorDef      = "xrd-definition-controller"
+	actorOff      = "xrd-offered-controller"
+	actorRev      = "revision-controller"
+	actorUsage    = "usage-controller"
+	actorUser     = "user"
+	actorThird    = "third-party"
+	actorAPI      = "apiserver"
+	actorSetup    = "setup"
 	actorPkgOther = "other-revision-controller"
 	actorPkgMgr   = "package-manager"
 )
@@ -124,13 +124,13 @@ var (
 
 // universe is the (small) set of objects a history plays on.
 type universe struct {
-	Claims     int    `json:"claims"`              // 1-2 claims, each with its XR
-	Templates  int    `json:"templates"`           // 1-2 composed resources per XR (r0: KindA, r1: KindB)
-	Foreground []bool `json:"foreground"`          // per claim: compositeDeletePolicy Foreground
-	SSA        bool   `json:"ssa,omitempty"`       // claim controller uses the server-side syncer (EnableBetaClaimSSA wiring)
-	Revision   bool   `json:"revision,omitempty"`  // a ProviderRevision with a Lock entry exists
-	Usage      bool   `json:"usage,omitempty"`     // the composition also composes a Usage (of r0, by r1)
-	Stage      int    `json:"stage"`               // how far the scripted bring-up got before the history starts (stageFull = everything running)
+	Claims     int    `json:"claims"`             // 1-2 claims, each with its XR
+	Templates  int    `json:"templates"`          // 1-2 composed resources per XR (r0: KindA, r1: KindB)
+	Foreground []bool `json:"foreground"`         // per claim: compositeDeletePolicy Foreground
+	SSA        bool   `json:"ssa,omitempty"`      // claim controller uses the server-side syncer (EnableBetaClaimSSA wiring)
+	Revision   bool   `json:"revision,omitempty"` // a ProviderRevision with a Lock entry exists
+	Usage      bool   `json:"usage,omitempty"`    // the composition also composes a Usage (of r0, by r1)
+	Stage      int    `json:"stage"`              // how far the scripted bring-up got before the history starts (stageFull = everything running)
 	Seed       int64  `json:"seed"`
 }
 
@@ -205,8 +205,8 @@ type fakeEngine struct {
 	w       *world
 	running map[string]bool
 	calls   []engineCall
-	c       client.Client  // client of the reconcile that is currently running
-	run     *verifsim.Run  // that reconcile's run (a crashed process calls nothing)
+	c       client.Client // client of the reconcile that is currently running
+	run     *verifsim.Run // that reconcile's run (a crashed process calls nothing)
 }
 
 var (
@@ -300,15 +300,15 @@ type world struct {
 	claimCreated []bool
 
 	// history bookkeeping (non-triviality, labels)
-	userDeletes    int
-	ctrlFinRemoved map[string]int // finalizer -> removals by its controller
-	crdDeletes     int
-	effectiveStops int
-	faultsHit      int
-	lastRun        *verifsim.Run
+	userDeletes           int
+	ctrlFinRemoved        map[string]int // finalizer -> removals by its controller
+	crdDeletes            int
+	effectiveStops        int
+	faultsHit             int
+	lastRun               *verifsim.Run
 	inactiveInLockDeletes int
 	midRan, midExcluded   int
-	hashCache      map[uintptr]cachedHash
+	hashCache             map[uintptr]cachedHash
 }
 
 type worldSnap struct {
